@@ -71,11 +71,15 @@ RECIPES = {
     "C10": {
         "level": "model_checking",
         "mc": {"quick": [("MC_Ident", "MC_Ident_q")], "thorough": [("MC_Ident", "MC_Ident_t")]},
-        "families": {"quick": [("ident", 1500, 2)], "thorough": [("ident", 10000, 8)]},
+        "families": {"quick": [("ident", 1500, 2), ("locate", 40, 2), ("elf", 5, 2)],
+                     "thorough": [("ident", 10000, 8), ("locate", 300, 4), ("elf", 40, 4)]},
         "reasons": ("value", "panic"),
+        "tags": ["ident", "tail"] + Q_ALL + SQ_ALL,
         "rule": "A: all 256 EI_DATA / EI_CLASS / EI_VERSION values, all single-byte and 4^4 (thorough 6^4) multi-byte magic "
                 "corruptions, two-defect idents, short buffers x 4 byte-order specs; error kind and payload are compared when "
-                "the ident has exactly one defect",
+                "the ident has exactly one defect; B: generated objects (incl. extended numbering, both orders) opened with Any, the matching "
+                "fixed spec, the other fixed spec and Native, full query sweep: every answer is judged against the same semantics, so "
+                "Any and the matching fixed spec must agree on everything",
         "assumptions": COMMON_ASSUME,
     },
     "C14": {
@@ -179,7 +183,7 @@ RECIPES = {
         "custom": [STREAM_A],
         "neg": {"quick": [NEG_STREAM[1], NEG_STREAM[2], NEG_STREAM[3]]},
         "level": "model_checking",
-        "families": {"quick": [("stream", 8, 5)], "thorough": [("stream", 60, 14)]},
+        "families": {"quick": [("stream", 8, 5), ("locate", 40, 2)], "thorough": [("stream", 60, 12), ("locate", 300, 4)]},
         "reasons": ("value", "panic"),
         "tags": SQ_ALL,
         "rule": "B: valid and corrupted objects opened through ElfStream over a scripted reader (full reads, 1-byte reads, random "
